@@ -502,3 +502,408 @@ def c15(ctx, res):
                msg="retain: %s" % "; ".join(uniq))
     res.sample({"iteration_paths": n_iter, "kinds": sorted(kinds), "cursor": cur0, "next_cursor": cur1})
     res.assumptions.append("exactly-once and LRU-to-MRU order follow from these clauses together with the list-shape invariant (C07, not decided)")
+
+
+# =====================================================================================================================
+#  C17: no safety debt in Drop
+# =====================================================================================================================
+def c17(ctx, res):
+    r = ctx.roles
+    te = _te(ctx, True)
+    co = copy_out_adts(ctx)
+    res.floor("C17 copy-out iterator types", len(co), 1)
+    hs = holders_of(ctx, co)
+    res.analysed["copy_out_iterators"] = co
+    res.analysed["holders"] = sorted(hs)
+    for adt in sorted(hs):
+        a = ctx.facts.adts[adt]
+        fields = a["variants"][0]["fields"]
+        by_val = [f for f in fields if r.cache in ty_adts(f["ty"]) and f["ty"].get("k") != "ref" and not _behind_ref(f["ty"], r.cache)]
+        by_mut = [f for f in fields if f["ty"].get("k") == "ref" and f["ty"].get("mut") and r.is_cache_ty(f["ty"]["ty"])]
+        by_shared = [f for f in fields if f["ty"].get("k") == "ref" and not f["ty"].get("mut") and r.is_cache_ty(f["ty"]["ty"])]
+        inner = [f for f in fields if f["ty"].get("k") == "adt" and f["ty"]["name"] in hs]
+        res.count("C17 holders of copy-out iterators")
+        if by_shared:
+            res.violate("C17:%s:shared-cache" % adt, "`%s` copies entries out bitwise while holding only `&` to the cache" % adt, span_str(a["span"]), {},
+                        "C17 no safety debt in Drop")
+            continue
+        if by_val or (inner and not by_mut):
+            res.oblige("C17 `%s` owns the cache by value: forgetting it forgets the cache, no destructor can see moved-out entries" % adt, True,
+                       key="C17:%s:owns-by-value" % adt)
+            continue
+        if not by_mut:
+            res.violate("C17:%s:no-cache" % adt, "`%s` holds a copy-out iterator but no cache: cannot judge who owns the entries" % adt,
+                        span_str(a["span"]), {}, "C17 no safety debt in Drop")
+            continue
+        # &mut holder: every constructor must leave the cache detached and empty *before* the reference is stored
+        ctors = [b for b in ctx.facts.bodies if b.kind in ("assoc_fn", "fn") and b.j["output"].get("k") == "adt" and b.j["output"].get("name") == adt
+                 and any(st_["k"] == "assign" and st_["rv"]["k"] == "aggregate" and st_["rv"].get("name") == adt
+                         for bl in b.blocks for st_ in bl["stmts"])]
+        if not ctors:
+            res.violate("C17:%s:no-constructor" % adt, "no constructor of `%s` found" % adt, span_str(a["span"]), {}, "C17 no safety debt in Drop")
+        for b in ctors:
+            res.count("C17 constructors of &mut holders")
+            probs = []
+            try:
+                rs = te.all_results(b, max_paths=30)
+            except TooComplex as e:
+                rs = []
+                probs.append(str(e))
+            # which parameter is the cache?
+            cp = None
+            for i, t in enumerate(b.j["inputs"]):
+                if t.get("k") == "ref" and t.get("mut") and r.is_cache_ty(t["ty"]):
+                    cp = i + 1
+            if cp is None:
+                probs.append("constructor does not take `&mut` cache")
+            for pr in rs:
+                stores = [(show(p), show(v)) for (p, v, _bb) in pr.stores]
+                sealv = "*p%d.%s" % (cp, r.SEAL)
+                need = {"*%s.%s.%s" % (sealv.lstrip("*") if False else "*p%d.%s" % (cp, r.SEAL), r.EPTR_RAW, l): sealv for l in r.links}
+                for l in r.links:
+                    tgt = "**p%d.%s.%s.%s" % (cp, r.SEAL, r.EPTR_RAW, l)
+                    if (tgt, sealv) not in stores:
+                        probs.append("seal link `%s` is not reset to the seal before the iterator is handed out" % l)
+                if ("*p%d.%s" % (cp, r.CS), "0") not in stores:
+                    probs.append("current_size is not reset to 0 before the iterator is handed out")
+                swaps = [x for x in pr.calls if x[4] is not None and x[4].external and
+                         norm(x[4].resolved or x[4].nominal) in ("std::mem::take", "std::mem::replace", "std::mem::swap")
+                         and any(("p%d.%s" % (cp, r.TABLE)) in show(a_) for a_ in x[2])]
+                if not swaps:
+                    probs.append("the table that holds the entries is not detached from the cache (mem::take/replace/swap of the table)")
+            uniq = sorted(set(probs))
+            res.oblige("C17 constructor `%s` leaves the cache empty, detached and with a reset list before handing out the iterator "
+                       "(Drop owes nothing for soundness)" % b.path, not uniq, detail=uniq, key="C17:%s:constructor-detaches" % b.path,
+                       loc=span_str(b.span), rule="C17 no safety debt in Drop",
+                       msg="`%s` hands out a copy-out iterator holding `&mut` cache but %s: if the iterator is leaked (mem::forget) the cache keeps "
+                           "entries that were moved out" % (b.path, "; ".join(uniq)))
+    # borrowing iterators: no Drop impl
+    cn = [a for a, _ in cursor_adts(ctx) if a not in co]
+    for adt in cn + sorted(holders_of(ctx, cn)):
+        if adt in hs or adt in co:
+            continue
+        db = r.trait_method("std::ops::Drop", "drop", adt)
+        res.count("C17 borrowing iterators")
+        res.oblige("C17 borrowing iterator `%s` has no Drop impl (forgetting it is a no-op)" % adt, db is None, key="C17:%s:borrowing-has-drop" % adt,
+                   rule="C17 no safety debt in Drop", msg="borrowing iterator `%s` has a Drop impl: leaking it skips that code" % adt)
+
+
+def _behind_ref(ty, name, depth=0):
+    if depth > 6 or not isinstance(ty, dict):
+        return False
+    if ty.get("k") in ("ref", "ptr"):
+        return name in ty_adts(ty)
+    return any(_behind_ref(a, name, depth + 1) for a in ty.get("args", []) or [])
+
+
+# =====================================================================================================================
+#  C06: every key and value dropped or handed back exactly once
+# =====================================================================================================================
+def _variant_payload_has_entry(r, ty, idx):
+    """for Option/Result/ControlFlow typed locals: does variant idx carry an Entry by value?"""
+    if ty.get("k") != "adt":
+        return True
+    n = ty["name"]
+    args = [a for a in ty.get("args", []) if a.get("k") not in ("region", "const")]
+    if n == "std::option::Option":
+        return idx == 1 and r.contains_entry_by_value(args[0])
+    if n in ("std::result::Result", "std::ops::ControlFlow"):
+        if idx < len(args):
+            return r.contains_entry_by_value(args[idx])
+        return False
+    return True
+
+
+def entry_linearity(ctx, b):
+    """forward may-hold dataflow for by-value Entry values; returns list of (local, bb, what) leaks"""
+    r = ctx.roles
+    g = cfg_of(b)
+    elocals = set(i for i, l in enumerate(b.locals) if r.contains_entry_by_value(l["ty"]))
+    if not elocals:
+        return [], 0
+    ent_short = r.entry.split("::")[-1]
+
+    def moves_entry(op):
+        if op.get("k") != "move":
+            return None
+        pl = op["place"]
+        if pl["l"] not in elocals:
+            return None
+        ty = pl["ty"]
+        if ty.startswith("&") or ty.startswith("*"):
+            return None
+        if (r.entry + "<") in ty or ty.startswith(ent_short + "<") or (ent_short + "<") in ty:
+            # moving a field that is not an Entry (e.g. a key out of an entry) is handled by the sink rule
+            if any(e["k"] == "field" and e.get("of") == r.entry for e in pl["p"]):
+                return None
+            return pl["l"]
+        return None
+
+    def rv_ops(rv):
+        out = []
+        for key in ("op", "a", "b"):
+            o = rv.get(key)
+            if isinstance(o, dict) and "k" in o:
+                out.append(o)
+        out += rv.get("ops", []) or []
+        return out
+
+    # a body of the entry type that takes `self` by value and takes its slots apart is a sink: its parameter is judged by
+    # the slot rule (C06.2), not by linearity
+    is_sink = (b.kind == "assoc_fn" and b.impl_self and b.impl_self.get("name") == r.entry and (b.j.get("inputs") or [{}])[0].get("name") == r.entry
+               and r.is_entry_ty((b.j.get("inputs") or [{}])[0]))
+    inn = {0: frozenset(i for i in elocals if 1 <= i <= b.arg_count and not (is_sink and i == 1))}
+    work = [0]
+    leaks = []
+    seen_leak = set()
+    steps = 0
+    while work:
+        bb = work.pop()
+        steps += 1
+        if steps > 5000:
+            break
+        H = set(inn[bb])
+        bl = b.blocks[bb]
+        for si, st in enumerate(bl["stmts"]):
+            if st["k"] == "assign":
+                for o in rv_ops(st["rv"]):
+                    m = moves_entry(o)
+                    if m is not None:
+                        H.discard(m)
+                root = st["place"]["l"]
+                if root in elocals and not any(e["k"] == "deref" for e in st["place"]["p"]):
+                    # receives an entry-carrying value?
+                    carries = False
+                    rv = st["rv"]
+                    if rv["k"] == "use" and rv["op"].get("k") == "move" and moves_entry(rv["op"]) is not None:
+                        carries = True
+                    if rv["k"] == "use" and rv["op"].get("k") == "move" and rv["op"]["place"]["l"] in elocals and \
+                            any(e["k"] == "downcast" for e in rv["op"]["place"]["p"]):
+                        carries = True
+                    if rv["k"] == "aggregate" and any(moves_entry(o) is not None or (o.get("k") == "move" and o["place"]["l"] in elocals)
+                                                     for o in rv.get("ops", [])):
+                        carries = True
+                    if rv["k"] == "aggregate" and rv.get("name") == r.entry:
+                        carries = True
+                    if carries:
+                        H.add(root)
+            elif st["k"] == "dead":
+                if st["l"] in H:
+                    key = (st["l"], bb)
+                    if key not in seen_leak:
+                        seen_leak.add(key)
+                        leaks.append((st["l"], bb, "goes out of scope"))
+                    H.discard(st["l"])
+        t = bl["term"]
+        k = t["k"]
+        outs = []
+        if k == "call":
+            for a in t["args"]:
+                m = moves_entry(a)
+                if m is not None:
+                    H.discard(m)
+                elif a.get("k") == "move" and a["place"]["l"] in elocals and not a["place"]["p"]:
+                    H.discard(a["place"]["l"])
+            if t.get("target") is not None:
+                H2 = set(H)
+                d = t["dest"]
+                if d["l"] in elocals and not d["p"]:
+                    H2.add(d["l"])
+                outs.append((t["target"], H2))
+        elif k == "switch":
+            dl = t["discr"].get("place", {}).get("l") if t["discr"].get("k") in ("copy", "move") else None
+            src = None
+            for st in bl["stmts"]:
+                if st["k"] == "assign" and st["place"]["l"] == dl and st["rv"]["k"] == "discr":
+                    src = st["rv"]["place"]
+            for (val, tb) in t["targets"]:
+                H2 = set(H)
+                if src is not None and src["l"] in elocals and not src["p"]:
+                    if not _variant_payload_has_entry(r, b.local_ty(src["l"]), val):
+                        H2.discard(src["l"])
+                outs.append((tb, H2))
+            outs.append((t["otherwise"], set(H)))
+        elif k == "return":
+            for x in H:
+                if x != 0:
+                    key = (x, bb)
+                    if key not in seen_leak:
+                        seen_leak.add(key)
+                        leaks.append((x, bb, "is still held when the function returns"))
+        else:
+            from ..cfg import term_succs
+            for (s2, kind) in term_succs(t, unwind=False):
+                outs.append((s2, set(H)))
+        for (s2, H2) in outs:
+            old = inn.get(s2)
+            new = frozenset(H2) | (old or frozenset())
+            if old is None or new != old:
+                inn[s2] = new
+                if s2 not in work:
+                    work.append(s2)
+    return leaks, len(elocals)
+
+
+def c06(ctx, res):
+    r, cg, eff = ctx.roles, ctx.cg, ctx.eff
+    te = _te(ctx, True)
+    # ---- 1. linearity of by-value entries
+    nloc = 0
+    nb = 0
+    for b in ctx.facts.bodies:
+        if b.file.endswith("mem_size.rs"):
+            continue
+        leaks, n = entry_linearity(ctx, b)
+        if n:
+            nb += 1
+            nloc += n
+        for (l, bb, what) in leaks:
+            nm = b.local_name(l) or ("_%d" % l)
+            res.violate("C06.1:%s:leaks:%s" % (b.path, nm),
+                        "in `%s` the entry value `%s` (%s) %s on some path without having been moved into a sink (dropped, returned, "
+                        "re-inserted or handed on): its key and value would never be dropped" % (b.path, nm, b.local_ty(l)["s"], what),
+                        b.loc(bb), {"local": l, "bb": bb}, "C06.1 linearity of extracted entries")
+    res.count("C06.1 entry-carrying locals", nloc)
+    res.floor("C06.1 bodies with by-value entries", nb, 12)
+    res.oblige("C06.1 every by-value entry is moved into a sink on every normal path (%d locals in %d bodies)" % (nloc, nb),
+               not any(v.key.startswith("C06.1:") for v in res.violations), key="C06.1:summary")
+    # ---- 2. sinks consume both slots exactly once
+    sinks = []
+    for b in ctx.facts.bodies:
+        ins = b.j.get("inputs") or []
+        if b.kind == "assoc_fn" and ins and r.is_entry_ty(ins[0]) and b.impl_self and b.impl_self.get("name") == r.entry:
+            sinks.append(b)
+    res.floor("C06.2 sink bodies (take Entry by value)", len(sinks), 3)
+    for b in sinks:
+        res.count("C06.2 sinks")
+        probs = []
+        for p in te.paths(b, max_paths=20):
+            pr = te.eval_path(b, p)
+            for slot in (r.E_KEY, r.E_VAL):
+                n = 0
+                for (bb, full, argt, val, c) in pr.calls:
+                    nn = norm(full)
+                    a0 = show(argt[0]) if argt else ""
+                    if nn == "std::mem::MaybeUninit::assume_init" and a0 == "p1.%s" % slot:
+                        n += 1
+                    if nn == "std::ptr::drop_in_place" and ("p1.%s" % slot) in a0:
+                        n += 1
+                    if nn in ("std::mem::MaybeUninit::assume_init_drop", "std::mem::MaybeUninit::assume_init_read") and ("p1.%s" % slot) in a0:
+                        n += 1
+                if n != 1:
+                    probs.append("slot `%s` is consumed %d times on a path" % (slot, n))
+        uniq = sorted(set(probs))
+        res.oblige("C06.2 `%s` consumes the key slot and the value slot exactly once on every path" % b.path, not uniq, detail=uniq,
+                   key="C06.2:%s:slots" % b.path, loc=span_str(b.span), rule="C06.2 sinks consume both slots once",
+                   msg="`%s`: %s" % (b.path, "; ".join(uniq)))
+    # ---- 3./4. copy-out primitive and clear_no_drop only where the protocol is completed
+    co = copy_out_adts(ctx)
+    hs = holders_of(ctx, co)
+    for p, d in eff.direct.items():
+        body = ctx.facts.body(p)
+        if body is None:
+            continue
+        callers_co = [c for c in cg.calls.get(p, []) if c.target is not None and eff.direct[c.target.path]["copy_out"]]
+        for c in callers_co:
+            res.count("C06.3 copy-out call sites")
+            okc = False
+            why = ""
+            if body.impl_self and body.impl_self.get("name") in co and body.name in ("next", "next_back"):
+                okc = True       # the holder's Drop discipline is checked below
+            elif d["swap_table"] and any(cls == "clear" for (cls, _c) in d["table"]) and any(cls in ("insert", "insert_grow") for (cls, _c) in d["table"]):
+                # relocation: copies go into a new table, the old table is emptied without dropping, on every path to return
+                g = cfg_of(body)
+                clears = [cc.bb for (cls, cc) in d["table"] if cls == "clear"]
+                okc = g.all_paths_pass(c.bb, g.return_blocks(), clears)
+                why = "" if okc else "a path from the copy-out to a return skips emptying the source table without dropping"
+            else:
+                why = "bitwise copy-out outside an owning iterator or a relocation"
+            res.oblige("C06.3 copy-out in `%s` is completed by marking the source table empty without dropping" % p, okc, detail=why,
+                       key="C06.3:%s:copy-out-protocol" % p, loc=c.loc, rule="C06.3 copy-out protocol",
+                       msg="`%s` copies an entry out bitwise (%s): %s -- the source slot would be dropped again" % (p, c.callee, why))
+        for c in d["copy_out"]:
+            # a direct bitwise copy-out: only the one-line primitive that returns the copy (its callers are judged above)
+            res.count("C06.3 direct copy-out sites")
+            prim = False
+            try:
+                rs_ = te.all_results(body, max_paths=3)
+                prim = len(rs_) == 1 and rs_[0].ret[0] == "call" and norm(rs_[0].ret[1]) in ("std::ptr::read", "hashbrown::raw::Bucket::read") \
+                    and not rs_[0].stores and body.arg_count == 1
+            except TooComplex:
+                prim = False
+            res.oblige("C06.3 direct bitwise copy-out in `%s` is the copy-out primitive itself" % p, prim, key="C06.3:%s:direct-copy-out" % p, loc=c.loc,
+                       rule="C06.3 copy-out protocol",
+                       msg="`%s` duplicates an entry bitwise (%s) outside the copy-out primitive: both copies own the key and value" % (p, c.callee))
+        for (cls, c) in d["table"]:
+            if cls == "clear" and norm(c.resolved or c.nominal).endswith("clear_no_drop"):
+                res.count("C06.4 clear_no_drop sites")
+                okc = (body.impl_trait == "std::ops::Drop" and body.impl_self and body.impl_self.get("name") in hs) or bool(d["swap_table"])
+                res.oblige("C06.4 clear_no_drop in `%s` follows a copy-out of every entry" % p, okc, key="C06.4:%s:clear_no_drop" % p, loc=c.loc,
+                           rule="C06.4 tables emptied through sinks",
+                           msg="`%s` empties a table without dropping its entries although they were not moved out first (keys and values leak)" % p)
+    check_owning_drops(ctx, res, "C06")
+    # ---- 4. the cache's own Drop and clear(): drain through a sink; seal freed exactly once, after
+    for (b, what) in ((r.trait_method("std::ops::Drop", "drop"), "Drop for the cache"), (r.method("clear"), "clear")):
+        if b is None:
+            res.violate("C06.4:anchor-missing:%s" % what, "%s not found" % what, None, {}, "anchors")
+            continue
+        res.count("C06.4 cache teardown paths")
+        g = cfg_of(b)
+        d = eff.direct[b.path]
+        drains = [c for (cls, c) in d["table"] if cls in ("drain", "into_iter")]
+        nexts = [c for (cls, c) in d["table"] if cls == "iter_next"]
+        sinkc = [c for c in cg.calls.get(b.path, []) if c.target is not None and c.target in sinks]
+        probs = []
+        if not drains or not nexts:
+            probs.append("does not iterate a drain of the table")
+        if not sinkc:
+            probs.append("yielded entries are not handed to a sink")
+        loops = g.loops()
+        if drains and nexts and sinkc:
+            lh = [h for h, blocks in loops.items() if nexts[0].bb in blocks and sinkc[0].bb in blocks]
+            if not lh:
+                probs.append("the sink is not applied inside the drain loop")
+            elif not g.all_paths_pass(0, g.return_blocks(), lh):
+                probs.append("a path returns without draining")
+        frees = d["free"] + [c for c in cg.calls.get(b.path, []) if c.target is not None and eff.direct[c.target.path]["free"]]
+        if what.startswith("Drop"):
+            if len(frees) != 1:
+                probs.append("the seal is freed %d times" % len(frees))
+            elif drains and nexts:
+                lh2 = [h for h, blocks in loops.items() if nexts[0].bb in blocks]
+                if lh2 and not g.dominates(lh2[0], frees[0].bb):
+                    probs.append("the seal is freed before the table was drained")
+        elif frees:
+            probs.append("clear frees the seal")
+        res.oblige("C06.4 %s drains the table through a sink on every path%s" % (what, " and frees the seal once, afterwards" if what.startswith("Drop") else ""),
+                   not probs, detail=probs, key="C06.4:%s" % b.path, loc=span_str(b.span), rule="C06.4 tables emptied through sinks",
+                   msg="%s: %s" % (what, "; ".join(probs)))
+    # seal free / alloc sites
+    freers = [p for p, d in eff.direct.items() if d["free"]]
+    callers = [c.body.path for p in freers for c in cg.callers_of(p)]
+    drop_b = r.trait_method("std::ops::Drop", "drop")
+    okf = all(x == (drop_b.path if drop_b else None) for x in callers)
+    res.oblige("C06.4 the seal is freed only from the cache's Drop", okf, detail=callers, key="C06.4:seal-freed-elsewhere",
+               rule="C06.4 seal lifecycle", msg="the seal-freeing primitive is called from %s" % callers)
+    # ---- 5. clone duplicates through Clone
+    for b in ctx.facts.bodies:
+        if b.kind == "assoc_fn" and b.name == "clone" and b.impl_self and b.impl_self.get("name") == r.entry and not b.impl_trait:
+            res.count("C06.5 Entry::clone")
+            rs = te.all_results(b, max_paths=4)
+            good = len(rs) == 1 and rs[0].ret[0] == "agg"
+            why = []
+            if good:
+                f = dict(rs[0].ret[4])
+                for slot, P in ((r.E_KEY, "K"), (r.E_VAL, "V")):
+                    s_ = show(f.get(slot, ("?",)))
+                    exp = "std::mem::MaybeUninit::<%s>::new(<%s as std::clone::Clone>::clone(std::mem::MaybeUninit::<%s>::assume_init_ref(&*p1.%s)))" % (P, P, P, slot)
+                    if s_ != exp:
+                        good = False
+                        why.append("slot `%s` is `%s`" % (slot, s_[:160]))
+                sz = show(f.get(r.E_SIZE, ("?",)))
+                if sz != "*p1.%s" % r.E_SIZE:
+                    good = False
+                    why.append("size is `%s`, not the source entry's recorded size" % sz)
+            res.oblige("C06.5 Entry::clone builds key and value with Clone::clone on the source's slots (no bitwise duplication) and copies the size",
+                       good, detail=why, key="C06.5:entry-clone", loc=span_str(b.span), rule="C06.5 clone through Clone",
+                       msg="Entry::clone: %s" % "; ".join(why))
